@@ -1,6 +1,8 @@
 import AdfObdd.CliModel
 import AdfObdd.CliFaithful
 import AdfObdd.CliModesProofs
+import AdfObdd.CliWorldProofs
+import AdfObdd.CliCounter
 /-! # C15 — CLI output is faithful in every library mode
 
 Model: `Cli.run` (`CliModel.lean`) — the three arms of `App::run`, the per-mode wiring table
@@ -212,6 +214,121 @@ theorem three_modes_print_same_sets {T : Type} (W : World T) (ok : WorldOK W) (f
     (blk.2.map (fun v => v.map storeIsConst)).Perm (blk'.2.map (fun v => v.map storeIsConst)) :=
   modes_same_sets W ok fuel fuel' i i' h hwf hn hnames hone hdump hh hh' blocks blocks' hb hb' blk blk' hm hm' hs
 
+/-! ### the world the model driver executes
+
+`CliM.drvWorld` (`CliWorld.lean`) is the concrete world the compiled driver hands to `CliM.runText` for
+every `clirun` request (all three arms; `Drv/Cli.lean`): truth tables tagged with their number of
+variables as the BDD library, the decision-tree dump `Bio.ttDump`, `natural_lexical_cmp` written down as
+the alphanumeric sort. It satisfies ALL assumptions about the external world (`CliMP.drvWorldOK`,
+`CliMP.drvWorld_dump`, from `Bio.ttLawful` and `Bio.ttDump_spec`), so the two theorems above hold for
+exactly the function whose output is diffed against the real binary — in particular the hybrid-arm
+statements are not vacuous. -/
+
+open CliM CliMP ParserM FromParser in
+/-- **`cli_text_faithful` for the driver's world**: no assumption about an external world is left -/
+theorem driver_world_faithful (fuel : Nat) (i : Inv) (t : List Char)
+    (fs : List Fact) (hd : DerFile fs t) (hne : fs ≠ []) (hwf : WellFormedAdf fs)
+    (hn : (namesOf fs).length ≤ VBOT)
+    (hnames : i.mode ≠ .naive → (namesOf fs).all bioNameOK = true)
+    (hone : i.mode ≠ .naive → i.flags.stmrew = true → ((acsOf fs).map (·.1)).Nodup)
+    (hh : haltedParsed drvWorld fuel i (sortState drvWorld.anSort i.sort (PState.ofFacts fs)) = true) :
+    ∃ blocks : List Block,
+      runText drvWorld fuel i t =
+        ⟨0, blocks.flatMap fun b => b.2.map (render (sortedNames drvWorld.anSort i.sort (namesOf fs)))⟩ ∧
+      blocks.map (·.1) = Cli.sections i.mode i.flags ∧
+      (∀ blk ∈ blocks, (blk.2.map (fun v => v.map storeIsConst)).Perm
+        (Cli.specSection (sortedNames drvWorld.anSort i.sort (namesOf fs)).length
+          (tablesD (sortedNames drvWorld.anSort i.sort (namesOf fs)).length
+            (SortModel.condFnsOn (sortedNames drvWorld.anSort i.sort (namesOf fs)) (condOf fs))) blk.1)) ∧
+      (∀ blk ∈ blocks, ∀ v ∈ blk.2, v.length = (sortedNames drvWorld.anSort i.sort (namesOf fs)).length) :=
+  cli_text_faithful drvWorld drvWorldOK fuel i t fs hd hne hwf hn hnames hone (fun _ => drvWorld_dump) hh
+
+open CliM CliMP ParserM FromParser in
+/-- **the three modes print the same sets, in the driver's world** -/
+theorem driver_world_three_modes (fuel fuel' : Nat) (i i' : Inv)
+    {st : PState} {names : List Label} {acs : List (Label × Fml)}
+    (h : Pres st names acs) (hwf : WfOn names acs) (hn : names.length ≤ VBOT)
+    (hnames : names.all bioNameOK = true) (hone : (acs.map (·.1)).Nodup)
+    (hh : haltedParsed drvWorld fuel i st = true) (hh' : haltedParsed drvWorld fuel' i' st = true)
+    (blocks blocks' : List Block) (hb : runParsed drvWorld fuel i st = some blocks)
+    (hb' : runParsed drvWorld fuel' i' st = some blocks')
+    (blk blk' : Block) (hm : blk ∈ blocks) (hm' : blk' ∈ blocks') (hs : blk.1 = blk'.1) :
+    (blk.2.map (fun v => v.map storeIsConst)).Perm (blk'.2.map (fun v => v.map storeIsConst)) :=
+  three_modes_print_same_sets drvWorld drvWorldOK fuel fuel' i i' h hwf hn hnames hone drvWorld_dump hh hh'
+    blocks blocks' hb hb' blk blk' hm hm' hs
+
+open CliM CliMP ParserM FromParser in
+/-- the hypotheses hold for the HYBRID arm (kernel-checked): `s(b).s(a).ac(b,neg(a)).ac(a,neg(b)).` with
+`--an --grd --com --stm --stmpre --stmrew` (no bounded search: the fuel hypothesis holds outright) — the
+run on the driver's world exits with status 0 and prints the five blocks, names in the order `a`, `b` -/
+example : ∃ blocks : List Block,
+    runText drvWorld 0 ⟨.hybrid, { grd := true, com := true, stm := true, stmpre := true, stmrew := true }, .an, .simple⟩
+      exText = ⟨0, blocks.flatMap fun b => b.2.map (render [['a'], ['b']])⟩ ∧
+    blocks.map (·.1) = [.grd, .com, .stm, .stmpre, .stmrew] ∧
+    (∀ blk ∈ blocks, ∀ v ∈ blk.2, v.length = 2) := by
+  obtain ⟨blocks, h1, h2, _, h4⟩ := driver_world_faithful 0
+    ⟨.hybrid, { grd := true, com := true, stm := true, stmpre := true, stmrew := true }, .an, .simple⟩ exText exFacts
+    exText_der (by decide) (by decide) (by simp [VBOT]; decide) (fun _ => by decide) (fun _ _ => by decide)
+    (halted_of_no_search _ _ _ _ (Or.inr ⟨rfl, rfl⟩))
+  have hs : sortedNames drvWorld.anSort .an (namesOf exFacts) = [['a'], ['b']] := by decide
+  simp only [hs] at h1 h4
+  exact ⟨blocks, h1, by rw [h2]; decide, h4⟩
+
+/-- … and what these blocks are, by evaluation (the own store's hash tables do not reduce in the
+kernel): the hybrid arm on the driver's world prints, for the two statements attacking each other,
+grounded `u u`; complete `uu`, `TF`, `FT`; two-valued and all stable variants the two models (each
+variant in the order of ITS algorithm) — the biodivine arm and the naive arm print the same sets for the
+sections they implement -/
+def exAll : Cli.Flags :=
+  { grd := true, com := true, twoval := true, stm := true, stmca := true, stmcb := true, stmpre := true,
+    stmrew := true, stmng := true }
+
+#guard (CliM.runText CliM.drvWorld 1000 ⟨.hybrid, exAll, .an, .simple⟩ CliMP.exText).exit == 0
+#guard (CliM.runText CliM.drvWorld 1000 ⟨.hybrid, exAll, .an, .simple⟩ CliMP.exText).stdout.map String.ofList ==
+  ["u(a) u(b) ", "u(a) u(b) ", "T(a) F(b) ", "F(a) T(b) ", "T(a) F(b) ", "F(a) T(b) ", "F(a) T(b) ", "T(a) F(b) ",
+   "F(a) T(b) ", "T(a) F(b) ", "F(a) T(b) ", "T(a) F(b) ", "F(a) T(b) ", "T(a) F(b) ", "T(a) F(b) ", "F(a) T(b) ",
+   "T(a) F(b) ", "F(a) T(b) "]
+#guard (CliM.runText CliM.drvWorld 1000 ⟨.biodivine, exAll, .an, .simple⟩ CliMP.exText).stdout.map String.ofList ==
+  ["u(a) u(b) ", "u(a) u(b) ", "T(a) F(b) ", "F(a) T(b) ", "F(a) T(b) ", "T(a) F(b) ", "T(a) F(b) ", "F(a) T(b) "]
+#guard (CliM.runText CliM.drvWorld 1000 ⟨.naive, exAll, .an, .simple⟩ CliMP.exText).stdout.map String.ofList ==
+  ["u(a) u(b) ", "u(a) u(b) ", "T(a) F(b) ", "F(a) T(b) ", "F(a) T(b) ", "T(a) F(b) ", "T(a) F(b) ", "F(a) T(b) "]
+#guard CliM.haltedParsed CliM.drvWorld 1000 ⟨.hybrid, exAll, .an, .simple⟩
+  (CliM.sortState CliM.drvWorld.anSort .an (ParserM.PState.ofFacts CliMP.exFacts))
+-- the dump of `x0 ∧ ¬x1` (table 0b0010) over two variables, in biodivine's layout
+#guard Bio.ttDump 2 2 == [⟨2, 0, 0⟩, ⟨2, 1, 1⟩, ⟨1, 0, 0⟩, ⟨1, 1, 0⟩, ⟨0, 2, 3⟩]
+-- `natural_lexical_cmp`: digits by value, case-insensitive, transliterated
+-- `natural_lexical_cmp`: runs of digits by length of the run after the first digit, then by value;
+-- case-insensitive; transliterated (`ö` as `o`, `ß` as `ss`); ties by the byte order
+#guard (CliM.NatLex.anSort (["a10", "B", "a9", "10", "9", "größe", "grost", "b", "02", "2", "a-b", "ab"].map String.toList)).map
+  String.ofList == ["2", "9", "02", "10", "a-b", "a9", "a10", "ab", "B", "b", "größe", "grost"]
+
+/-! ### `--counter` (`CliM.runTextC`, CliCounter.lean)
+
+An addition to the text-level model: the line `--counter nai|mem` puts in front of the sections in the
+naive and the hybrid arm. It changes neither the exit status nor the interpretations printed, so all
+statements above carry over to invocations with `--counter`. Run against the binary (150 invocations,
+all three arms): agreement — after the model learned that with the DEFAULT feature set `--counter mem`
+prints `ModelCounts { cmodels: 0, models: 0 }` for every non-constant condition (`CliM.zeroMemoLine`). -/
+
+/-- `--counter` puts at most one line in front of the output of the run without it -/
+theorem counter_adds_at_most_one_line {T : Type} (W : CliM.World T) (zm : Bool) (fuel : Nat) (i : CliM.Inv)
+    (c : CliM.Counter) (t : List Char) :
+    (CliM.runTextC W zm fuel i c t).exit = (CliM.runText W fuel i t).exit ∧
+    ∃ pre : List (List Char), pre.length ≤ 1 ∧
+      (CliM.runTextC W zm fuel i c t).stdout = pre ++ (CliM.runText W fuel i t).stdout :=
+  CliM.runTextC_stdout W zm fuel i c t
+
+/-- no `--counter`, an unknown value, or the biodivine arm: exactly the run without it -/
+theorem counter_ignored {T : Type} (W : CliM.World T) (zm : Bool) (fuel : Nat) (i : CliM.Inv) (c : CliM.Counter)
+    (t : List Char) (h : c = .absent ∨ c = .other ∨ i.mode = .biodivine) :
+    CliM.runTextC W zm fuel i c t = CliM.runText W fuel i t := CliM.runTextC_eq_runText W zm fuel i c t h
+
+-- the two mutually attacking statements: each condition `¬x` has one model and one counter-model
+#guard (CliM.runTextC CliM.drvWorld true 10 ⟨.hybrid, { grd := true }, .an, .simple⟩ .nai CliMP.exText).stdout.map String.ofList ==
+  ["ModelCounts { cmodels: 1, models: 1 } ModelCounts { cmodels: 1, models: 1 } ", "u(a) u(b) "]
+#guard (CliM.runTextC CliM.drvWorld true 10 ⟨.naive, { grd := true }, .an, .simple⟩ .mem CliMP.exText).stdout.map String.ofList ==
+  ["ModelCounts { cmodels: 0, models: 0 }ModelCounts { cmodels: 0, models: 0 }", "u(a) u(b) "]
+
 /-- the naive arm of the text-level model is the function the driver executes and compares with the
 binary (`Cli.run .naive` at the bound 1 000 000, on the object `from_parser` builds) -/
 theorem naive_arm_is_driver_model (f : Cli.Flags) (heu : SM.Heu) (st : ParserM.PState) :
@@ -281,4 +398,8 @@ end C15
 #print axioms C15.rejects_malformed_text
 #print axioms C15.line_format
 #print axioms C15.naive_arm_is_driver_model
+#print axioms C15.driver_world_faithful
+#print axioms C15.driver_world_three_modes
+#print axioms C15.counter_adds_at_most_one_line
+#print axioms C15.counter_ignored
 #print axioms C15.library_arms_panic_on_special_labels
